@@ -96,28 +96,26 @@ def reset_protection(initial, coop=False):
     """fresh primitive state + initial table.  With coop=True the locks are cooperative."""
     import threading
 
+    env()  # (building the harness classes uses the library: it must happen BEFORE the state is reset, not after)
     mm = mutation_module()
     mc = mm._modules_copyable
-    if "__instance__" in vars(mc):
+    if isinstance(mc, type) and "__instance__" in vars(mc):
         delattr(mc, "__instance__")
     lock_type = type(threading.RLock())
     factory = sched.CoopRLock if coop else threading.RLock
     mm.RLock = factory
-    for k, v in list(vars(mc).items()):
-        if isinstance(v, (lock_type, sched.CoopRLock)):
-            setattr(mc, k, factory())
-    for k, v in list(vars(mm).items()):
-        if isinstance(v, (lock_type, sched.CoopRLock)):
-            setattr(mm, k, factory())
-        elif isinstance(v, mc):  # an eagerly created module-level singleton
-            for kk, vv in list(vars(v).items()):
-                if isinstance(vv, (lock_type, sched.CoopRLock)):
-                    setattr(v, kk, factory())
-                elif kk == "refcount":
-                    v.refcount = 0
-                elif kk == "patched_table":
-                    v.patched_table = False
-    inst = vars(mc).get("__instance__")
+    # whatever object of the module holds the primitive's state (the class, an eager singleton, a state holder):
+    # locks are re-created, counters and flags put back to their initial values
+    holders = [mm] + [v for v in vars(mm).values() if (isinstance(v, type) and v.__module__ == mm.__name__) or
+                      (hasattr(v, "__dict__") and type(v).__module__ == mm.__name__ and not callable(v))]
+    for h in holders:
+        for k, v in list(vars(h).items()):
+            if isinstance(v, (lock_type, sched.CoopRLock)):
+                setattr(h, k, factory())
+            elif h is not mm and k == "refcount" and isinstance(v, int):
+                setattr(h, k, 0)
+            elif h is not mm and k in ("patched_table", "patched") and isinstance(v, bool):
+                setattr(h, k, False)
     copyreg.dispatch_table.pop(types.ModuleType, None)
     if initial == "user":
         copyreg.dispatch_table[types.ModuleType] = user_reducer
@@ -133,22 +131,27 @@ def table_state():
 
 
 def primitive_state():
-    mc = mutation_module()._modules_copyable
-    inst = vars(mc).get("__instance__")
-    if inst is None:
-        for v in vars(mutation_module()).values():
-            if isinstance(v, mc):
-                inst = v
-    if inst is None:
-        return None
-    return (getattr(inst, "refcount", None), getattr(inst, "patched_table", None))
+    """(refcount, patched flag) of whatever holds the primitive's state; only used to count distinct states in the evidence"""
+    mm = mutation_module()
+    mc = mm._modules_copyable
+    cands = []
+    if isinstance(mc, type):
+        cands.append(vars(mc).get("__instance__"))
+        cands += [v for v in vars(mm).values() if isinstance(v, mc)]
+    cands += [v for v in vars(mm).values() if hasattr(v, "refcount")]
+    for inst in cands:
+        if inst is not None and hasattr(inst, "refcount"):
+            return (getattr(inst, "refcount", None), getattr(inst, "patched_table", None))
+    return None
 
 
 # ------------------------------------------------------------------------------------------------
 # operations that copy
 # ------------------------------------------------------------------------------------------------
 OPS = ["ctor_default", "ctor_nested", "ctor_module", "with_module", "with_num_item", "deepcopy_flat", "deepcopy_nested3",
-       "deepcopy_nested_instances", "reset", "protect_direct", "user_deepcopy", "transform_nested", "caught_nested_abort"]
+       "deepcopy_nested_instances", "reset", "protect_direct", "user_deepcopy", "transform_nested", "caught_nested_abort",
+       "user_registers", "user_unregisters"]
+USER_OPS = {"user_registers": "user", "user_unregisters": "absent"}  # the application (un)registers its own reducer for modules
 
 
 def do_op(name, st):
@@ -188,6 +191,10 @@ def do_op(name, st):
         assert c.n.payload[0].n is sys
     elif name == "transform_nested":
         st["obj"] = M(n=M()).transform_n(lambda v: [sys, v])
+    elif name == "user_registers":
+        copyreg.dispatch_table[types.ModuleType] = user_reducer
+    elif name == "user_unregisters":
+        copyreg.dispatch_table.pop(types.ModuleType, None)
     elif name == "caught_nested_abort":
         # an inner protected copy is aborted by an exception that user code CATCHES while the outer protected copy goes on:
         # the module met later in the outer copy must still be copyable, and the table restored at the end
@@ -230,6 +237,8 @@ def run_sequence(initial, seq, fault=None):
         except Exception as ex:
             raised = ex
         G.CB.arm = None
+        if name in USER_OPS:
+            want = USER_OPS[name]  # what the application itself did to the table is the new baseline
         got = table_state()
         if got != want:
             bad.append({"after_op": i, "op": name, "table": got, "expected": want, "raised": repr(raised)[:120] if raised else None,
@@ -377,13 +386,13 @@ def classify(s, kinds, want):
     return None, {}, None
 
 
-def thread_violation(s, kinds, initial, sig, detail, err, opcodes=False):
+def thread_violation(s, kinds, initial, sig, detail, err, opcodes=False, window=False):
     ch = s.choices()
     dev = [(i, c) for i, c in enumerate(ch) if c != 0]
     return violation(PROP, {"part": "threads", "kind": sig, "threads": len(kinds), "initial": initial, "error": err},
                      dict(detail, deviations=dev[:6], points=len(ch),
                           at=[list(s.points[i].where) if isinstance(s.points[i].where, tuple) else s.points[i].where for i, _ in dev[:4]]),
-                     {"part": "threads", "kinds": kinds, "initial": initial, "choices": ch, "opcodes": opcodes})
+                     {"part": "threads", "kinds": kinds, "initial": initial, "choices": ch, "opcodes": opcodes, "window": bool(window)})
 
 
 def thread_worker(task):
@@ -403,7 +412,7 @@ def thread_worker(task):
         sig, detail, err = classify(s, kinds, want)
         outcomes[sig or "ok"] = outcomes.get(sig or "ok", 0) + 1
         if sig:
-            C.viol(thread_violation(s, kinds, initial, sig, detail, err, task.get("opcodes", False)))
+            C.viol(thread_violation(s, kinds, initial, sig, detail, err, task.get("opcodes", False), task.get("window", False)))
         else:
             C.inc("traces_validated_against_impl")
             C.nontrivial(tuple(c for c in s.choices()))
@@ -411,7 +420,7 @@ def thread_worker(task):
     opfuncs = ("__new__", "__init__", "__enter__", "__exit__", "protect_via_deepcopy") if task.get("opcodes") else ()
     stats = sched.explore(make, ["spec_classes/utils/mutation.py"], bound, judge, opcode_funcs=opfuncs,
                           setup=lambda: reset_protection(initial, coop=True), max_executions=task.get("max_executions"),
-                          shard=task.get("shard"))
+                          shard=task.get("shard"), only_quals=("_modules_copyable",) if task.get("window") else ())
     reset_protection("none")
     C.rec["states"] = stats["executions"]
     C.rec["extra"]["schedules"] = stats["executions"]
@@ -473,13 +482,14 @@ def run_case(case):
     vals = [thread_value(k) for k in kinds]
     bodies = [body_for(k, v) for k, v in zip(kinds, vals)]
     opfuncs = ("__new__", "__init__", "__enter__", "__exit__", "protect_via_deepcopy") if case.get("opcodes") else ()
-    s = sched.Scheduler(bodies, ["spec_classes/utils/mutation.py"], prefix=case["choices"], opcode_funcs=opfuncs)
+    s = sched.Scheduler(bodies, ["spec_classes/utils/mutation.py"], prefix=case["choices"], opcode_funcs=opfuncs,
+                        only_quals=("_modules_copyable",) if case.get("window") else ())
     s.run()
     if s.divergence:
         raise sched.ReplayDivergence(s.divergence)
     sig, detail, err = classify(s, kinds, want)
     reset_protection("none")
-    return [thread_violation(s, kinds, initial, sig, detail, err, case.get("opcodes", False))] if sig else []
+    return [thread_violation(s, kinds, initial, sig, detail, err, case.get("opcodes", False), case.get("window", False))] if sig else []
 
 
 def work(task):
@@ -503,7 +513,14 @@ def main(run):
         for kinds in combos2:
             tasks.append({"part": "threads", "kinds": list(kinds), "bound": 2, "initial": initial, "opcodes": False})
         tasks.append({"part": "threads", "kinds": ["flat", "flat", "list"], "bound": 1 if quick else 2, "initial": initial, "opcodes": False})
+    # window: scheduling points only inside the protection primitive's own methods, where a deeper preemption bound is
+    # affordable (a race of two first uses through an unlocked fast path needs three switches)
+    # (the values must carry their modules INSIDE a container: a bare module attribute is passed through without the table)
+    tasks.append({"part": "threads", "kinds": ["list", "list"], "bound": 3, "initial": "none", "opcodes": False, "window": True})
     if not quick:
+        tasks.append({"part": "threads", "kinds": ["list", "list"], "bound": 4, "initial": "none", "opcodes": False, "window": True})
+        tasks.append({"part": "threads", "kinds": ["nested", "list"], "bound": 3, "initial": "none", "opcodes": False, "window": True})
+        tasks.append({"part": "threads", "kinds": ["list", "list", "list"], "bound": 2, "initial": "none", "opcodes": False, "window": True})
         tasks.append({"part": "threads", "kinds": ["flat", "list"], "bound": 2, "initial": "none", "opcodes": True, "max_executions": 400000})
         tasks.append({"part": "threads", "kinds": ["flat", "nested", "list"], "bound": 2, "initial": "none", "opcodes": False})
     for i in range(4):
